@@ -76,8 +76,8 @@ pub fn replay_one(cx: &mut Cx, name: &str, s: usize, occ: u64) {
 
 pub fn run(cfg: &Cfg) -> Result<Outcome, String> {
     let stats = run_sharded(cfg, |cx| {
-        let noise_n: usize = if cx.is_thorough() { 48 } else { 6 };
-        let random_n: u64 = cx.budget(4_000_000, 160_000_000) / 8;
+        let noise_n: usize = if cx.is_thorough() { 256 } else { 64 };
+        let random_n: u64 = cx.budget(160_000_000, 4_000_000_000);
         let mut digest = 0u64;
         // ---- sliders: every subset of the relevant-blocker mask x noise in the irrelevant bits
         for s in cx.mine(64) {
